@@ -8,6 +8,7 @@
 #include <igris/sync/syslock.h>
 #include <igris/osinter/wait.h>
 #include <igris/event/safe_queue.h>
+#include <cerrno>
 #include <igris/container/dlist.h>
 #include <thread>
 #include <mutex>
@@ -58,7 +59,10 @@ static int n_waits = 0, n_pushes = 0;
 static void run_thread(int tid, unsigned seed) {
     tl_tid = tid; tl_rng = seed * 7919u + tid * 104729u + 1;
     syslock_save_pair sv{0, 0};
+    unsigned opi = 0;
     for (const Op &op : prog[tid]) {
+        // whatever an earlier, unrelated call left in this thread's errno (an interrupted sleep or read: EINTR) must not matter
+        { static const int stale[] = {0, EINTR, EAGAIN, EINTR, ENOMEM, ETIMEDOUT, EINVAL, EINTR}; errno = stale[(seed + 3u * tid + opi++) % 8]; }
         if (op.k == "lock") system_lock();
         else if (op.k == "unlock") system_unlock();
         else if (op.k == "save") sv = system_lock_save();
